@@ -11,7 +11,7 @@ if [ ! -d $WT ]; then git -C /repo worktree add --detach $WT HEAD -q || exit 2; 
 git -C $WT checkout -q --detach $(git -C /repo rev-parse HEAD) 2>/dev/null
 git -C $WT checkout -q -- . ; git -C $WT clean -fdq
 git -C $WT apply /verif/seeded/$NAME/patch.diff || { echo "SEEDRUN $NAME cannot apply"; exit 2; }
-cd /verif
+cd ${SNAP:-/verif}
 for P in "$@"; do
   t0=$(date +%s)
   VT_REPO=$WT VT_WORK=$SW VT_EVIDENCE_DIR=$SW/evidence VT_REPLAYS=$SW/replays ./check $P --tier ${TIER:-quick} > $SW/out/${NAME}__$P.out 2>&1; rc=$?
